@@ -6,7 +6,7 @@ from workers import Worker
 
 ID = "C01"
 LEVEL = "other"
-GEN = ["RxGen", "UnicodeGen", "InlineGen", "UtilGen"]
+GEN = ["RxGen", "UnicodeGen", "InlineGen", "BlockGen", "UtilGen", "NormalizeGen"]
 COQ = ["Props/C01.vo"]
 EXPLANATION = (
     "PARTIAL proof + isolated-worker oracle. Proved (coq/Props/C01.v): (1) every regular-expression operation of the model "
@@ -35,8 +35,12 @@ P = gen_docs.ALL_PLUGINS
 def pumps(r):
     n = r.choice([8, 40, 120, 400])
     k = r.random()
-    if k < 0.12:
+    if k < 0.06:
         return "> " * n + "x\n"
+    if k < 0.12:
+        # containers that interrupt each other line by line
+        a, b = r.sample(["- a\n", "> b\n", "1. c\n", "* d\n", ">\n", "+ e\n"], 2)
+        return (a + b) * n
     if k < 0.22:
         return "".join(r.choice(["> ", "- ", "1. "]) for _ in range(n)) + "x\n"
     if k < 0.30:
@@ -85,6 +89,17 @@ def surrogate(r):
     return r.choice(["[a](%s)", "<http://x/%s>", "text %s", "![i](/p%s 't')", "[r]: /u%s\n\n[r]", "```%s\nc\n```", "| %s |\n|-|\n", "https://e.x/%s"]) % s + "\n"
 
 
+def alternating(doc):
+    """at least 150 lines, and adjacent lines alternate between a block quote line and a list item line"""
+    lines = doc.split("\n")
+    if lines and lines[-1] == "":
+        lines.pop()
+    if len(lines) < 150:
+        return False
+    kinds = ["q" if l.lstrip(" ").startswith(">") else ("l" if __import__("re").match(r" {0,3}([-*+]|\d{1,9}[.)])( |$)", l) else "x") for l in lines]
+    return all(k in "ql" for k in kinds) and all(kinds[i] != kinds[i + 1] for i in range(len(kinds) - 1))
+
+
 def sample_cfg(r):
     k = r.random()
     if k < 0.08:
@@ -111,13 +126,23 @@ def check(w, cfg, doc, fails, limit):
          "got": res.get("exc") or res.get("type"), "msg": res.get("msg")}
     if res.get("exc") == "UnicodeEncodeError" and any(0xD800 <= ord(c) <= 0xDFFF for c in doc):
         f["class"] = "lone-surrogate-in-destination"
+    if res.get("exc") == "RecursionError" and alternating(doc):
+        f["class"] = "alternating-container-lines-recursion"
     fails.append(f)
     return False
 
 
 def correspondence(ctx):
+    import corr_block
+    import corr_doc
     import corr_inline
-    return corr_inline.run(ctx, ctx.n(4000, 60000))
+    a = corr_inline.run(ctx, ctx.n(3000, 50000))
+    b = corr_block.run(ctx, ctx.n(1500, 30000))
+    c = corr_doc.run(ctx, ctx.n(1500, 30000))
+    return {"evaluations": a["evaluations"] + b["evaluations"] + c["evaluations"],
+            "disagreements": (a["disagreements"] + b["disagreements"] + c["disagreements"])[:20],
+            "parts": {"inline": a["evaluations"], "block": b["evaluations"], "document": c["evaluations"]},
+            "samples": a["samples"] + b["samples"]}
 
 
 def oracle(ctx, extra):
@@ -171,7 +196,8 @@ def check_known(ctx, k):
     w = Worker()
     try:
         fails = []
-        check(w, {"renderer": "html"}, k["input"], fails, 20)
+        doc = k["input"] if "input" in k else k["unit"] * k["times"]
+        check(w, {"renderer": "html"}, doc, fails, 20)
         return bool(fails)
     finally:
         w.close()
